@@ -338,6 +338,8 @@ class SignatureInfo:
     if index < 0:
       args, _ = self.transform_to_args_kwargs(arguments, True, True)
       index += len(args)
+      if index < 0:
+        raise IndexError('Positional argument index out of range.')
     params = list(self.signature.parameters.values())
     if index < len(params):
       param = params[index]
